@@ -73,6 +73,9 @@ def run(ctx):
     }
     srcs = {k: p.source() for k, p in progs.items()}
     srcs.update(baits)
+    # the fixed enumeration of the bait families (tools/lib/gen_c.py): the same programs every run
+    from lib.gen_c import directed_programs
+    srcs.update({k: p.source() for k, p in directed_programs().items()})
     variants = {'O0': ['-O0'], 'O1': ['-O1']}
     if not quick:
         variants.update({'O2': ['-O2'], 'O3': ['-O3']})
